@@ -8,8 +8,10 @@ from .interp import Unsupported
 
 
 class Prover:
-    def __init__(self, out, engine_name="mirsmt", cross=True, timeout_ms=120000):
+    def __init__(self, out, engine_name="mirsmt", cross=True, timeout_ms=120000, cross_limit=12):
         self.out, self.cross, self.timeout_ms = out, cross, timeout_ms
+        self.cross_limit = cross_limit     # cvc5 is a process per query: cross-check the first N queries of every obligation
+        self.n_cross = 0
         self.engine_name = engine_name
         self.n_queries = 0
 
@@ -47,7 +49,8 @@ class Prover:
                 self.out.obligation(oid, self.engine_name, "inconclusive", time.time() - t0, witness=False, note="z3 unknown")
                 self.out.inconc("%s: z3 returned unknown" % oid)
                 return "inconclusive", "z3 unknown"
-            if self.cross:
+            if self.cross and n <= self.cross_limit:
+                self.n_cross += 1
                 cr = cvc5_check(s)
                 if cr in ("sat", "unsat") and cr != str(r):
                     self.out.obligation(oid, self.engine_name, "inconclusive", time.time() - t0, witness=False,
